@@ -68,11 +68,16 @@ def clash_names(case, impl):
 def known_match(line, case, outdir):
     cid = line.split()[0]
     impl = ""
-    with open(os.path.join(outdir, "impl.txt")) as fh:
-        for l in fh:
-            if l.split(" ", 1)[0] == cid:
-                impl = l.rstrip("\n")
-                break
+    # histories checked by the oracles only have their line in impl-oracle.txt, if anywhere
+    for fn in ("impl.txt", "impl-oracle.txt"):
+        p = os.path.join(outdir, fn)
+        if impl or not os.path.exists(p):
+            continue
+        with open(p) as fh:
+            for l in fh:
+                if l.split(" ", 1)[0] == cid:
+                    impl = l.rstrip("\n")
+                    break
     try:
         qs = clash_names(case, impl)
     except Exception:
@@ -95,7 +100,9 @@ def known_match(line, case, outdir):
     # the failing subject must be one of the clashing conflict names (a different violation is still reported as new)
     for q in qs:
         name = bytes.fromhex(q).decode(errors="replace")
-        if q in line or ('"%s"' % name) in line or name in line:
+        # the harness prints names with Rust's {:?}: backslashes and double quotes are escaped there
+        dbg = name.replace("\\", "\\\\").replace('"', '\\"')
+        if q in line or ('"%s"' % name) in line or name in line or dbg in line:
             return ("class=NameClash an already-live conflict-copy name %r (holding other content, or recorded and present on one side only) "
                     "is reused by a both-changed conflict with the same loser: the edited copy is overwritten / the record and a second run disagree "
                     "(witness corpus/C02/c02-f5-edited-conflict-copy.txt; Props/C02.v C02_name_clash_loses_version)" % name)
